@@ -7,7 +7,7 @@ if ! git diff --quiet; then echo "repo dirty"; exit 3; fi
 git apply --3way "$patch" 2>/tmp/apply.err || git apply "$patch" || { echo "PATCH DOES NOT APPLY"; cat /tmp/apply.err; git reset -q --hard HEAD; exit 3; }
 git reset -q   # unstage 3way result
 cd /verif
-/venv/bin/python /verif/check.py check "$prop" --tier "$tier" 2>&1 | grep -v "conda WARNING" | grep -E "^\[|VIOLATION|KNOWN|signature|HARNESS|NONDET|WORKER" | cut -c1-400
+VERIF_REPLAY_DIR=/tmp/wt2/replays_m VERIF_EVIDENCE_DIR=/tmp/wt2/evidence_m /venv/bin/python /verif/check.py check "$prop" --tier "$tier" 2>&1 | grep -v "conda WARNING" | grep -E "^\[|VIOLATION|KNOWN|signature|HARNESS|NONDET|WORKER" | cut -c1-400
 rc=${PIPESTATUS[0]}
 cd /repo && git reset -q --hard HEAD && git status --short | grep -v egg-info
 echo "exit=$rc"
